@@ -1,6 +1,271 @@
+/-
+C15, round 3 - the argument of `merge_parts` as the caller sees it at the time of the call.
+
+  * a Score object is merged through the list `score.parts` it holds THEN - after any history of item assignments,
+    assignments to `.parts` (what `unfold_part_maximal` / `unfold_part_minimal` do to the copy they return), appends,
+    pops and reversals - and never through `part_structure`, which no step of a history changes
+    (`Model.Merge.AScore`, `ScoreOp`, `runOps`, `Arg`, `mergeArg`)
+  * the renumbered voices (staves) of a later part lie strictly above those of every earlier part, and the offset of
+    a part is the LEAST number that achieves this: the highest voice (staff) of part i and voice (staff) 1 of part
+    i + 1 become neighbours.  Hence every element must be counted with the voice / staff it carries at the time of
+    the call - `allElems`: the elements and the objects that are on the timeline by their end only - and a count that
+    misses one (a number of staves remembered from before an in-place edit, a scan that skips end-only objects) makes
+    two inputs share a staff (`staff_offset_tight`, `stale_count_collides`).
+Histories of a PART (reads, in-place attribute edits) do not occur in the model: `mergeParts` is a function of the
+elements as they are, which is the statement; the harness reads them from the objects after the history.
+-/
 import PartituraModel.Proofs.C15Order
 
 namespace C15
 open Model.Merge
+
+-- ================================================================ Score objects and their history
+
+theorem mkScore_parts (s : Shape) : (mkScore s).parts = iterParts s := by
+  cases s <;> rfl
+
+theorem runOps_append (sc : AScore) (a b : List ScoreOp) :
+    runOps sc (a ++ b) = (runOps sc a).bind fun sc' => runOps sc' b := by
+  induction a generalizing sc with
+  | nil => simp [runOps]
+  | cons o os ih =>
+    simp only [List.cons_append, runOps]
+    cases o.run sc with
+    | none => simp
+    | some sc1 => simpa using ih sc1
+
+/-- a fresh Score is merged like what it was built from -/
+theorem score_fresh (m : Mode) (s : Shape) : mergeArg m (.score s []) = merge m s := by
+  simp [mergeArg, argParts, runOps, mkScore_parts, merge]
+
+/-- no step of a history touches `part_structure` - which is why it cannot be what `merge_parts` merges -/
+theorem score_structure_fixed (sc sc' : AScore) (ops : List ScoreOp) (h : runOps sc ops = some sc') :
+    sc'.partStructure = sc.partStructure := by
+  induction ops generalizing sc with
+  | nil => simp [runOps] at h; rw [← h]
+  | cons o os ih =>
+    simp only [runOps] at h
+    cases ho : o.run sc with
+    | none => simp [ho] at h
+    | some sc1 =>
+      simp only [ho, Option.bind_some] at h
+      rw [ih sc1 h]
+      cases o <;> simp only [ScoreOp.run] at ho
+      · split at ho
+        · simp only [Option.some.injEq] at ho; rw [← ho]
+        · cases ho
+      · simp only [Option.some.injEq] at ho; rw [← ho]
+      · simp only [Option.some.injEq] at ho; rw [← ho]
+      · split at ho
+        · simp only [Option.some.injEq] at ho; rw [← ho]
+        · cases ho
+      · simp only [Option.some.injEq] at ho; rw [← ho]
+
+/-- Whatever a Score was built from and whatever happened to it since: `merge_parts(score)` is the merge of the list
+`score.parts` as it is at the time of the call. -/
+theorem score_sees_parts (m : Mode) (s : Shape) (ops : List ScoreOp) (sc : AScore)
+    (h : runOps (mkScore s) ops = some sc) : mergeArg m (.score s ops) = mergeParts m sc.parts := by
+  simp [mergeArg, argParts, h]
+
+/-- ... in particular after `score.parts = ps` (the Score returned by `unfold_part_maximal` / `unfold_part_minimal`
+is a copy whose `.parts` were assigned the unfolded parts): exactly `ps` are merged, whatever came before -/
+theorem score_assign_last (m : Mode) (s : Shape) (ops : List ScoreOp) (sc : AScore)
+    (h : runOps (mkScore s) ops = some sc) (ps : List APart) :
+    mergeArg m (.score s (ops ++ [.assign ps])) = mergeParts m ps := by
+  simp [mergeArg, argParts, runOps_append, h, runOps, ScoreOp.run]
+
+/-- ... and after `score[i] = p`: the part at position `i` is `p`, the others are the ones that were there -/
+theorem score_setitem_last (m : Mode) (s : Shape) (ops : List ScoreOp) (sc : AScore)
+    (h : runOps (mkScore s) ops = some sc) (i : Nat) (p : APart) (hi : i < sc.parts.length) :
+    mergeArg m (.score s (ops ++ [.setItem i p])) = mergeParts m (sc.parts.set i p) := by
+  simp [mergeArg, argParts, runOps_append, h, runOps, ScoreOp.run, hi]
+
+/-- The merged part of a Score describes the parts the caller sees through `score.parts`: it holds exactly the images
+of the kept elements of THOSE parts (every element of the first, the non-discarded classes of the others), with the
+least common multiple of THEIR divisions.  All statements of Props/C15.lean and Props/C15Ext.lean about
+`mergeParts m ps` apply with `ps = sc.parts`. -/
+theorem score_merged_contents (m : Mode) (s : Shape) (ops : List ScoreOp) (L : Nat) (es : List Elem)
+    (h : mergeArg m (.score s ops) = some (.merged L es)) :
+    ∃ sc, runOps (mkScore s) ops = some sc ∧ mergeParts m sc.parts = some (.merged L es)
+      ∧ L = lcmList (sc.parts.map (·.divs))
+      ∧ ∀ e', e' ∈ es ↔ ∃ i p e, sc.parts[i]? = some p ∧ e ∈ p.elems ∧ keep m (i == 0) e = true
+                        ∧ e' = image m L sc.parts i p e := by
+  cases hr : runOps (mkScore s) ops with
+  | none => simp [mergeArg, argParts, hr] at h
+  | some sc =>
+    have h' : mergeParts m sc.parts = some (.merged L es) := by
+      rw [← score_sees_parts m s ops sc hr]; exact h
+    obtain ⟨_, _, _, hL, _⟩ := mergeParts_merged_iff.mp h'
+    have hperm := merged_perm h'
+    exact ⟨sc, rfl, h', hL, fun e' => by rw [hperm.mem_iff, mem_merged]⟩
+
+/-- a Score that is left with one part is that part, however many parts it was built from -/
+theorem score_single (m : Mode) (s : Shape) (ops : List ScoreOp) (sc : AScore)
+    (h : runOps (mkScore s) ops = some sc) (p : APart) (hp : sc.parts = [p]) :
+    mergeArg m (.score s ops) = some (.same p) := by
+  rw [score_sees_parts m s ops sc h, hp]; simp [mergeParts]
+
+/-- what the examples compare of a result: the divisions and (identity, voice, staff) of every element in order
+(0 and the elements of the part when an input part is returned) -/
+def outcome (r : Option Result) : Option (Nat × List (Nat × Option Nat × Option Nat)) :=
+  r.map fun
+    | .merged L es => (L, es.map fun e => (e.oid, e.voice, e.staff))
+    | .same p => (0, p.elems.map fun e => (e.oid, e.voice, e.staff))
+
+/-- Non-vacuity, and the reason `part_structure` must not be used: `score = Score([A, B]); score[1] = D` is merged
+as [A, D] (2 notes of D's voice above A's two voices) - which differs from the merge of [A, B], the parts
+`part_structure` still holds. -/
+theorem stale_structure_witness :
+    outcome (mergeArg .voice (.score (.many [.part exA, .part exB]) [.setItem 1 exD]))
+        = outcome (mergeParts .voice [exA, exD])
+      ∧ (runOps (mkScore (.many [.part exA, .part exB])) [.setItem 1 exD]).map (·.partStructure.length) = some 2
+      ∧ outcome (mergeParts .voice [exA, exD]) ≠ outcome (merge .voice (.many [.part exA, .part exB])) := by
+  refine ⟨by decide, by decide, by decide⟩
+
+/-- the other steps: an assignment (as the unfold functions do), append, pop down to one part, reverse -/
+example : outcome (mergeArg .staff (.score (.one (.group [.part exA, .part exB])) [.reverse, .assign [exD, exA]]))
+    = outcome (mergeParts .staff [exD, exA]) := by decide
+example : outcome (mergeArg .auto (.score (.many [.part exA]) [.append exD]))
+    = outcome (mergeParts .auto [exA, exD]) := by decide
+example : (runOps (mkScore (.many [.part exA, .part exB])) [.pop 0]).map (·.parts.map (·.pid)) = some [1] := by decide
+example : (runOps (mkScore (.many [.part exA, .part exB])) [.reverse]).map (·.parts.map (·.pid)) = some [1, 0] := by
+  decide
+/-- an item assignment outside the list raises -/
+example : (runOps (mkScore (.many [.part exA])) [.setItem 1 exD]).isNone = true := by decide
+
+-- ================================================================ the offsets are exact
+
+theorem sumBefore_step (f : APart → Nat) {ps : List APart} {i : Nat} {p : APart} (hp : ps[i]? = some p) :
+    sumBefore f ps (i + 1) = sumBefore f ps i + f p := by
+  induction ps generalizing i with
+  | nil => simp at hp
+  | cons q qs ih =>
+    cases i with
+    | zero =>
+      simp at hp; subst hp
+      rw [sumBefore_succ, sumBefore_zero, sumBefore_zero]; omega
+    | succ i =>
+      simp only [List.getElem?_cons_succ] at hp
+      rw [sumBefore_succ, sumBefore_succ, ih hp]; omega
+
+theorem foldr_max_mem : ∀ (l : List Nat), l ≠ [] → l.foldr max 0 ∈ l
+  | [], h => absurd rfl h
+  | [x], _ => by simp
+  | x :: y :: ys, _ => by
+    have ih := foldr_max_mem (y :: ys) (by simp)
+    simp only [List.foldr_cons] at ih ⊢
+    rcases Nat.le_total x (max y (List.foldr max 0 ys)) with h | h
+    · rw [Nat.max_eq_right h]; exact List.mem_cons_of_mem _ ih
+    · rw [Nat.max_eq_left h]; exact List.mem_cons_self
+
+theorem maxOr1_mem {l : List Nat} (h : l ≠ []) : maxOr1 l ∈ l := by
+  cases l with
+  | nil => exact absurd rfl h
+  | cons x xs => exact foldr_max_mem (x :: xs) (by simp)
+
+/-- a part that has an element carrying a staff has one on its highest staff (a missing staff counting as 1) -/
+theorem maxStaff_attained (p : APart) (h : ∃ e ∈ allElems p, withStaff e.cls = true) :
+    ∃ a ∈ allElems p, withStaff a.cls = true ∧ a.staff.getD 1 = maxStaff p := by
+  obtain ⟨e, he, hs⟩ := h
+  have hne : uStaves p ≠ [] := List.ne_nil_of_mem (staff_mem_uStaves he hs)
+  have hm := maxOr1_mem hne
+  rw [uStaves, mem_uniq, stavesOf, List.mem_map] at hm
+  obtain ⟨a, ha, hv⟩ := hm
+  obtain ⟨ha1, ha2⟩ := List.mem_filter.mp ha
+  exact ⟨a, ha1, by simpa using ha2, hv⟩
+
+/-- a part that has a note or rest with a voice has one in its highest voice -/
+theorem maxVoice_attained (p : APart) (h : ∃ e ∈ allElems p, isGeneric e.cls = true ∧ e.voice.isSome) :
+    ∃ a ∈ allElems p, isGeneric a.cls = true ∧ a.voice = some (maxVoice p) := by
+  obtain ⟨e, he, hg, hv⟩ := h
+  obtain ⟨v, hv⟩ := Option.isSome_iff_exists.mp hv
+  have hne : uVoices p ≠ [] := List.ne_nil_of_mem (voice_mem_uVoices he hg hv)
+  have hm := maxOr1_mem hne
+  rw [uVoices, mem_uniq, voicesOf, List.mem_filterMap] at hm
+  obtain ⟨a, ha, hav⟩ := hm
+  by_cases hga : isGeneric a.cls = true
+  · simp only [hga, if_true] at hav
+    exact ⟨a, ha, hga, hav⟩
+  · simp [hga] at hav
+
+/-- staff mode: the staves of a later input lie strictly above those of every earlier input (which is more than
+`staves_disjoint`: the inputs keep their order from top to bottom) -/
+theorem staves_ordered (L : Nat) (ps : List APart) (hnum : NumberedFrom1 ps) (i j : Nat) (p q : APart)
+    (hp : ps[i]? = some p) (hq : ps[j]? = some q) (hij : i < j) (a b : Elem) (ha : a ∈ allElems p)
+    (hb : b ∈ allElems q) (hsa : withStaff a.cls = true) (hsb : withStaff b.cls = true) :
+    ∃ sa sb, (image .staff L ps i p a).staff = some sa ∧ (image .staff L ps j q b).staff = some sb ∧ sa < sb := by
+  have h1b : 1 ≤ b.staff.getD 1 := by
+    cases hs : b.staff with
+    | none => simp
+    | some s => simpa using (hnum q (List.mem_of_getElem? hq) b hb).2 s hs
+  refine ⟨_, _, ?_, ?_, staff_lt hij hp ha hsa h1b⟩
+  · simp only [image, staff_mode_staff _ _ hsa, ctxAt_sOff]
+  · simp only [image, staff_mode_staff _ _ hsb, ctxAt_sOff]
+
+/-- staff mode: the offset of a part is the least possible.  The element `a` on the highest staff of part `i` - be
+it a note, a clef, a direction, or an object that is on the timeline by its end only - and an element `b` on staff
+1 (or without staff) of part `i + 1` end up on neighbouring staves. -/
+theorem staff_offset_tight (L : Nat) (ps : List APart) (i : Nat) (p q : APart) (hp : ps[i]? = some p)
+    (a b : Elem) (hsa : withStaff a.cls = true) (hsb : withStaff b.cls = true)
+    (hmax : a.staff.getD 1 = maxStaff p) (hone : b.staff.getD 1 = 1) :
+    (image .staff L ps (i + 1) q b).staff = (image .staff L ps i p a).staff.map (· + 1) := by
+  simp only [image, staff_mode_staff _ _ hsa, staff_mode_staff _ _ hsb, ctxAt_sOff, Option.map_some,
+    Option.some.injEq, sumBefore_step maxStaff hp, hmax, hone]
+  omega
+
+/-- Therefore a count of the staves of part `i` that misses its highest staff - `k < maxStaff p`: a number
+remembered from before `a.staff` was assigned, or a scan that does not reach `a` - puts `b` of the next part on a
+staff that part `i` uses: the offset `sumBefore maxStaff ps i + k` (what the loop would add with that count) gives
+`b` a staff that is at most the staff of `a`. -/
+theorem stale_count_collides (L : Nat) (ps : List APart) (i : Nat) (p : APart) (a b : Elem)
+    (hsa : withStaff a.cls = true) (hmax : a.staff.getD 1 = maxStaff p) (hone : b.staff.getD 1 = 1)
+    (k : Nat) (hk : k < maxStaff p) :
+    ∃ sa, (image .staff L ps i p a).staff = some sa ∧ b.staff.getD 1 + (sumBefore maxStaff ps i + k) ≤ sa := by
+  exact ⟨a.staff.getD 1 + sumBefore maxStaff ps i, by simp only [image, staff_mode_staff _ _ hsa, ctxAt_sOff],
+    by omega⟩
+
+/-- voice mode: the voices of a later input lie strictly above those of every earlier input -/
+theorem voices_ordered (L : Nat) (ps : List APart) (hnum : NumberedFrom1 ps) (i j : Nat) (p q : APart)
+    (hp : ps[i]? = some p) (hq : ps[j]? = some q) (hij : i < j) (a b : Elem) (ha : a ∈ allElems p)
+    (hb : b ∈ allElems q) (hga : isGeneric a.cls = true) (hgb : isGeneric b.cls = true) (va vb : Nat)
+    (hva : a.voice = some va) (hvb : b.voice = some vb) :
+    ∃ wa wb, (image .voice L ps i p a).voice = some wa ∧ (image .voice L ps j q b).voice = some wb ∧ wa < wb := by
+  have h1b := (hnum q (List.mem_of_getElem? hq) b hb).1 vb hvb
+  refine ⟨_, _, ?_, ?_, voice_lt hij hp ha hga hva h1b⟩
+  · simp only [image, voice_mode_voice _ _ hga, hva, Option.map_some, ctxAt_vOff]
+  · simp only [image, voice_mode_voice _ _ hgb, hvb, Option.map_some, ctxAt_vOff]
+
+/-- voice mode: the offset of a part is the least possible - the highest voice of part `i` and voice 1 of part
+`i + 1` become neighbours -/
+theorem voice_offset_tight (L : Nat) (ps : List APart) (i : Nat) (p q : APart) (hp : ps[i]? = some p)
+    (a b : Elem) (hga : isGeneric a.cls = true) (hgb : isGeneric b.cls = true)
+    (hmax : a.voice = some (maxVoice p)) (hone : b.voice = some 1) :
+    (image .voice L ps (i + 1) q b).voice = (image .voice L ps i p a).voice.map (· + 1) := by
+  simp only [image, voice_mode_voice _ _ hga, voice_mode_voice _ _ hgb, ctxAt_vOff, hmax, hone, Option.map_some,
+    Option.some.injEq, sumBefore_step maxVoice hp]
+  omega
+
+-- ---------------------------------------------------------------- non-vacuity
+
+/-- part F, divisions 2: one note on staff 1 and a wedge that began before the excerpt - it is on the timeline by
+its end only - on staff 3 -/
+def exF : APart := { pid := 5, divs := 2, elems := [
+  { oid := 50, cls := classId "Note", start := 0, stop := some 2, voice := some 1, staff := some 1, pitch := some 60, tiePrev := false, chain := [] }], tails := [
+  { oid := 51, cls := classId "DecreasingLoudnessDirection", start := 0, stop := some 2, voice := none, staff := some 3, pitch := none, tiePrev := false, chain := [] }] }
+
+/-- the highest staff of F is that of its end-only wedge; merged before D, D's note (staff 1) goes to staff 4, next
+to the wedge on staff 3 - hypotheses of `maxStaff_attained`, `staff_offset_tight`, `staves_ordered` at a non-trivial
+value -/
+example : maxStaff exF = 3 ∧ (∃ e ∈ allElems exF, withStaff e.cls = true)
+    ∧ NumberedFrom1 [exF, exD]
+    ∧ (mergedTails .staff [exF, exD]).map (fun t => (t.oid, t.staff)) = [(51, some 3)]
+    ∧ outcome (mergeParts .staff [exF, exD]) = some (2, [(50, some 1, some 1), (30, some 1, some 4)]) := by
+  unfold NumberedFrom1
+  decide
+
+/-- hypotheses of `maxVoice_attained` / `voice_offset_tight`: A's highest voice is 2 (a rest), D's note of voice 1
+becomes voice 3 -/
+example : maxVoice exA = 2 ∧ (∃ e ∈ allElems exA, isGeneric e.cls = true ∧ e.voice.isSome)
+    ∧ (exD.elems.map fun b => (image .voice 6 [exA, exD] 1 exD b).voice) = [some 3] := by decide
 
 end C15
